@@ -53,6 +53,19 @@ func genC12Case(t *rapid.T) C12Case {
 	c04Tame = rapid.IntRange(0, 3).Draw(t, "tame") != 0
 	defer func() { c04Tame = false }()
 	u0, u1 := genSpecialUser(t, 0), genSpecialUser(t, 1)
+	if std := expectedAttrs(world.UserSpec{Email: u0.Email, Surname: u0.Surname, GivenName: u0.GivenName, FullName: u0.FullName, Username: u0.Username, UserIDAttr: u0.UserIDAttr}); len(std) > 0 && rapid.IntRange(0, 4).Draw(t, "twin-attr") == 0 {
+		// a custom attribute that shares Name and NameFormat with one of the user's standard attributes: two attributes match
+		// one requested (Name, NameFormat) pair, both are the user's
+		a := std[rapid.IntRange(0, len(std)-1).Draw(t, "twin-of")]
+		twin := world.CustomAttr{Name: a.Name, NameFormat: a.NameFormat, FriendlyName: "twin", Values: []string{"twin-value-1", "twin-value-2"}}
+		kept := u0.Custom[:0:0]
+		for _, c := range u0.Custom {
+			if c.Name != a.Name {
+				kept = append(kept, c)
+			}
+		}
+		u0.Custom = append(kept, twin)
+	}
 	if rapid.Bool().Draw(t, "urnattr") {
 		u0.Custom = append(u0.Custom, world.CustomAttr{Name: "urn:oid:2.5.4.20", FriendlyName: "telephoneNumber", NameFormat: "urn:oasis:names:tc:SAML:2.0:attrname-format:uri", Values: []string{"+41 00 000 00 00"}})
 	}
